@@ -261,6 +261,14 @@ class FnUninit:
                     a = self.iv.ival(n)
                     if a[0] == a[1] and 0 <= a[0] < (1 << 31): n = {"k": "int", "v": str(int(a[0])), "sv": str(int(a[0])), "t": n["t"]}
                 sroot, soff = self.addr(i.ops[1])
+                droot0, doff0 = self.addr(i.ops[0])
+                if sroot is not None and soff is not None and droot0 is not None and doff0 is not None and n["k"] == "int" and droot0 != sroot \
+                        and sroot[0] == "alloca" and droot0[0] == "alloca":
+                    # one local copied into another (struct assignment, the padding bytes SROA moves separately): copying indeterminate bytes
+                    # is not a use - the destination is exactly as initialised as the source was, and is judged where it is read
+                    nn = int(n["v"]); m_ = (st[sroot] >> soff) & ((1 << nn) - 1)
+                    st = dict(st); st[droot0] = (st[droot0] & ~rng(doff0, nn)) | (m_ << doff0)
+                    return st
                 if sroot is not None and soff is not None and n["k"] == "int":
                     nn = int(n["v"])
                     lm = (self.eng.layout.leaf_mask(self.objs[sroot]["type"]) if self.objs[sroot]["type"].startswith(("%", "[")) else ALL)
